@@ -130,6 +130,15 @@ func VerifC12Engines() {
 	zzverif.Assert(err == nil, "badger opens")
 	nodes := []backend.Backend{node(zzmodel.NewStore()), node(memkv.NewKvStorage()), node(bd), node(zzc11.NewMockTiKV()),
 		node(smetrics.NewKvStorage(bd2, zzmodel.NoMetrics{}))}
+	if zzverif.Param("evkey", 0) == 1 {
+		// the keys are Kubernetes Events (written with a TTL; expired natively by some engines and
+		// by the compaction scan on the others)
+		keys = [][]byte{[]byte("/r/events/a"), []byte("/r/events/a/b")}
+		// (time stands still: nothing expires during the run; expiry itself is C17's subject)
+		zzverif.SetClock(1000000000)
+	}
+	// script=1: the requests are a compaction followed by a point read (both at symbolic revisions)
+	script := zzverif.Param("script", 0) == 1
 	n := zzverif.Param("requests", 3)
 	nsc := zzverif.Param("prestates", 1)
 	sc := 0
@@ -146,7 +155,12 @@ func VerifC12Engines() {
 	}
 	for i := 0; i < n; i++ {
 		tag := "q" + string(rune('0'+i))
-		kind := zzverif.Choose(tag+".kind", 6)
+		kind := 0
+		if script {
+			kind = []int{5, 3, 4}[i%3]
+		} else {
+			kind = zzverif.Choose(tag+".kind", 6)
+		}
 		key := keys[zzverif.Choose(tag+".key", len(keys))]
 		val := zzverif.Bytes(tag+".val", 1)
 		exp := zzverif.U64(tag + ".exp")
